@@ -116,6 +116,16 @@ def check(run, driver):
         else:
             run.corr_fail("seams", case, f"{N} l2dist, {N} svd, {N * k} ellipsoid checks", {kk: len(v) for kk, v in rec.items()}, "call counts at the seams")
         run.traces += 1
+    # ---- history: same buffers refilled in place between two calls
+    from common import reuse_check
+    for it in range(10 if thorough else 4):
+        N = int(rng.integers(10, 24)); kk = int(rng.integers(1, 4))
+        A1, A2 = rng.standard_normal((N, 3)), rng.standard_normal((N, 3))
+        sp = lambda W: (W[:, :1], W[:, 1:2], W[:, 2:])
+        run.case("history", [N, kk, float(A1[0, 0])], True)
+        reuse_check(run, "geometric-kNN entropy", lambda x: H(x, kk), (A1,), (A2,), {"function": "geometric_knn_entropy", "clause": "purity"})
+        reuse_check(run, "geometric-kNN CMI", lambda x, y, z: float(C.geometric_knn_conditional_mutual_information(x, y, z, metric="euclidean", k=kk)), sp(A1), sp(A2), {"function": "geometric_knn_conditional_mutual_information", "clause": "purity"})
+        reuse_check(run, "geometric-kNN MI", lambda x, y: float(M.geometric_knn_mutual_information(x, y, metric="euclidean", k=kk)), sp(A1)[:2], sp(A2)[:2], {"function": "geometric_knn_mutual_information", "clause": "purity"})
     # ---- MI / CMI as documented signed sums
     for it in range(90 if thorough else 30):
         dx, dy, dz = int(rng.integers(1, 3)), int(rng.integers(1, 3)), int(rng.integers(1, 3))
